@@ -15,6 +15,8 @@ use std::process::{Command, Stdio};
 
 use serde_json::{json, Value};
 
+pub mod rig;
+
 // ---------------------------------------------------------------- PRNG ----
 
 /// splitmix64: every random choice of a case derives from one state.
